@@ -98,17 +98,38 @@ def lamGraphs (σ : List Scope) : Expr → Acc → Acc
       let b : B := {}
       let b := b.enterSection i
       -- _process_basic_statement(node.args): generic_visit(args), then the node
-      let a := match args with
-        | .lambda _ a2 b2 => lamGraphs σ' b2 (lamGraphs σ' a2 a)
-        | other => lamGraphs σ' other a
+      let a := lamGraphsKids σ' args a
       let b := (addOrdinaryNodes b args.kidLams).addOrdinaryNode args.id
       -- _process_exit_statement(node.body, (ast.Lambda,)): generic_visit(body), then the exit node
-      let a := match body with
-        | .lambda _ a2 b2 => lamGraphs σ' b2 (lamGraphs σ' a2 a)
-        | other => lamGraphs σ' other a
+      let a := lamGraphsKids σ' body a
       let b := processExit σ' (addOrdinaryNodes b body.kidLams) body.id .lam false
       let b := b.exitSection i
       a.finish i b
+  | .name .., a => a
+  | .const .., a => a
+  | .noneMarker, a => a
+  | .attr _ v _ _, a => lamGraphs σ v a
+  | .subscript _ v s _, a => lamGraphs σ s (lamGraphs σ v a)
+  | .call _ f as ks, a => lamGraphsL σ ks (lamGraphsL σ as (lamGraphs σ f a))
+  | .keyword _ _ _ v, a => lamGraphs σ v a
+  | .boolop _ _ vs, a => lamGraphsL σ vs a
+  | .unary _ _ e, a => lamGraphs σ e a
+  | .binop _ _ l r, a => lamGraphs σ r (lamGraphs σ l a)
+  | .compare _ l _ rs, a => lamGraphsL σ rs (lamGraphs σ l a)
+  | .ifexp _ t b e, a => lamGraphs σ e (lamGraphs σ b (lamGraphs σ t a))
+  | .seq _ _ es _, a => lamGraphsL σ es a
+  | .starred _ v _, a => lamGraphs σ v a
+  | .namedexpr _ t v, a => lamGraphs σ v (lamGraphs σ t a)
+  | .comp _ _ es gs, a => lamGraphsL σ gs (lamGraphsL σ es a)
+  | .comprehension _ t it ifs _, a => lamGraphsL σ ifs (lamGraphs σ it (lamGraphs σ t a))
+  | .arguments _ po ar va ko kd kw df, a =>
+      lamGraphsL σ df (lamGraphsL σ kw (lamGraphsL σ kd (lamGraphsL σ ko (lamGraphsL σ va (lamGraphsL σ ar (lamGraphsL σ po a))))))
+  | .arg _ _ an, a => lamGraphsL σ an a
+  | .withitem _ c v, a => lamGraphsL σ v (lamGraphs σ c a)
+  | .other _ _ _ kids, a => lamGraphsL σ kids a
+/-- `self.generic_visit(e)`: the children only. -/
+def lamGraphsKids (σ : List Scope) : Expr → Acc → Acc
+  | .lambda _ args body, a => lamGraphs σ body (lamGraphs σ args a)
   | .name .., a => a
   | .const .., a => a
   | .noneMarker, a => a
@@ -135,11 +156,6 @@ def lamGraphsL (σ : List Scope) : List Expr → Acc → Acc
   | [], a => a
   | e :: es, a => lamGraphsL σ es (lamGraphs σ e a)
 end
-
-/-- `self.generic_visit(e)`: the children only. -/
-def lamGraphsKids (σ : List Scope) : Expr → Acc → Acc
-  | .lambda _ args body, a => lamGraphs σ body (lamGraphs σ args a)
-  | e, a => lamGraphs σ e a
 
 /-- Expression children of a simple statement, in `generic_visit` (field) order. -/
 def _root_.Malt.Py.Stmt.exprKids : Stmt → List Expr
